@@ -1,8 +1,8 @@
 CONSTANTS
   Dev_AdoptClientSecurity = FALSE
   Dev_IgnoreSigFailure = FALSE
-  Dev_TokenKeyLimits = TRUE
-  Dev_StatusSkipsVerify = FALSE
+  Dev_TokenKeyLimits = FALSE
+  Dev_StatusSkipsVerify = TRUE
   Dev_CloseOnce = FALSE
   Dev_RecycledConfig = FALSE
   Dev_AdvertiseExtra = FALSE
@@ -11,12 +11,12 @@ CONSTANTS
   SresSet = {"good", "goodsub", "uncertain", "bad"}
   MaxAttempts = 1
   Histories = {"none"}
-  ConfigSet = "one"
+  ConfigSet = "seq"
   Scripted = TRUE
-  Intents = {"endpoint", "raw"}
-  DiagKeys = FALSE
+  Intents = {"endpoint"}
+  DiagKeys = TRUE
   Emit = "none"
 INIT Init
 NEXT Next
-INVARIANT InvInterop
+INVARIANT InvProvenIdentity
 CHECK_DEADLOCK FALSE
